@@ -159,6 +159,13 @@ func runCheck(opt *checkOpts) int {
 	rng := rand.New(rand.NewSource(int64(seed) + 1))
 	sampleEvery := 12 // about one obligation in twelve is cross-checked with cvc5 in the thorough tier
 	pl := newPool(outDir, workers, thorough, timeout)
+	openKnown := map[string]bool{}
+	for _, f := range kf.Findings {
+		if f.Status == "open" && (f.Property == opt.property || f.Property == "*") {
+			openKnown[f.Obligation] = true
+		}
+	}
+	pl.retry = func(o Obligation) bool { return !openKnown[o.Clause] } // a listed open finding is expected not to discharge
 	notes := map[string]bool{}
 	var funcsUnder []string
 	nLemmas := 0
